@@ -28,8 +28,9 @@ CONSTANTS
   Totals,         \* if non-empty, only page requests with size+skip in Totals
   AfterSizes,     \* sizes for search-after / search-before requests
   ReqModes,       \* subset of {"page", "after", "before"}
-  MaxN,           \* matches per search (single-key sorts)
-  MaxN2,          \* matches per search for sorts with two or more keys (larger match domain)
+  MaxN,           \* matches per search: one field/score key with mode "first" (<= 3 possible matches)
+  MaxN1,          \* matches per search: one key with mode min/max (5 possible matches) or _id
+  MaxN2,          \* matches per search: two or more keys (9+ possible matches)
   ScoresSorted,   \* score values when the sort looks at the score
   ScoresOther,    \* score values otherwise (only maxScore depends on them)
   SingleVals,     \* field value sequences of length <= 1 (<<>> = missing)
@@ -59,9 +60,10 @@ SortsTotal == { <<KField(1, D, MF, "first"), KId(A)>>, <<KScore(D), KId(D)>> }
 
 SortsQuick    == SortsScore \cup SortsKey4 \cup {<<KField(1, A, ML, "min")>>, <<KField(1, D, MF, "max")>>}
                   \cup SortsTwo \cup SortsId \cup SortsTotal
-SortsThorough == SortsScore \cup SortsKey4 \cup SortsMode \cup SortsTwo \cup SortsId \cup SortsTotal
+SortsThorough == SortsScore \cup SortsKey4 \cup {<<KField(1, D, ML, "min")>>, <<KField(1, A, MF, "max")>>}
+                  \cup {<<KField(1, A, ML, "first"), KScore(D)>>} \cup SortsId \cup SortsTotal
 SortsHeap     == { <<KScore(D)>>, <<KField(1, D, MF, "first")>>, <<KField(1, A, ML, "first"), KScore(D)>>, <<KId(A)>> }
-SortsSim      == SortsThorough
+SortsSim      == SortsQuick \cup SortsThorough
                   \cup { <<KField(1, A, MF, "first"), KField(2, D, ML, "first"), KId(A)>>,
                          <<KScore(A), KField(1, D, ML, "max")>>,
                          <<KField(2, A, ML, "min"), KField(1, D, MF, "first"), KScore(D)>> }
@@ -84,7 +86,10 @@ FieldDom(sort, f) ==
 
 \* matches that may arrive next.  Attributes the sort does not look at are
 \* fixed (they cannot influence anything); ids are unique.
-MaxNOf(sort) == IF Len(sort) >= 2 THEN MaxN2 ELSE MaxN
+MaxNOf(sort) ==
+  IF Len(sort) >= 2 THEN MaxN2
+  ELSE IF sort[1].kind = "id" \/ sort[1].mode # "first" THEN MaxN1
+  ELSE MaxN
 
 MatchDom(sort, sn) ==
   { [id |-> i, s |-> sc, k |-> kk] :
